@@ -1179,6 +1179,12 @@ static sexp sim_now_proc(sexp ctx, sexp self, sexp_sint_t n) {
   (void)self; (void)n;
   return sexp_make_integer(ctx, W.now_us);
 }
+// a foreign call that takes simulated time: (sim-burn us) models a long non-preemptible C call
+static sexp sim_burn_proc(sexp ctx, sexp self, sexp_sint_t n, sexp us) {
+  (void)ctx; (void)self; (void)n;
+  if (sexp_fixnump(us) && sexp_unbox_fixnum(us) > 0) { W.now_us += sexp_unbox_fixnum(us); W.counters["burn_calls"]++; }
+  return SEXP_VOID;
+}
 static sexp sim_ticks_proc(sexp ctx, sexp self, sexp_sint_t n) {
   (void)self; (void)n;
   return sexp_make_integer(ctx, W.ticks);
@@ -1209,6 +1215,7 @@ static void define_sim_procs(sexp ctx, sexp env) {
   sexp_define_foreign(ctx, env, "sim-probe", 1, sim_probe_proc);
   sexp_define_foreign(ctx, env, "sim-now-us", 0, sim_now_proc);
   sexp_define_foreign(ctx, env, "sim-ticks", 0, sim_ticks_proc);
+  sexp_define_foreign(ctx, env, "sim-burn", 1, sim_burn_proc);
   sexp_define_foreign(ctx, env, "sim-count", 1, sim_count_proc);
 }
 
@@ -1732,7 +1739,8 @@ static void c13_hook_alloc(sexp ctx, size_t size) {
 static void c13_hook_gc(sexp ctx, int phase) {
   if (!X.active || X.cur < 0) return;
   C13Task* t = X.tasks[X.cur];
-  if (phase == 0) { t->in_gc = true; return; }
+  if (phase == 0) { t->in_gc = true; c13_switch("gc-start"); return; }
+  if (phase == 1) { c13_switch("gc-marked"); return; }
   if (phase == 2) {
     C13Task* owner = c13_task_of(ctx);
     if (owner) {
@@ -1847,6 +1855,9 @@ static void* c13_task_main(void* arg) {
   for (auto* o : X.tasks) if (!o->done) any = true;
   if (any) c13_switch("after-destroy");
   else sem_post(&X.main_sem);
+  // a finished task never exits its thread: thread teardown (arena detach, stack caching) would run concurrently with the
+  // next baton holder and make later addresses depend on real timing. It parks until the process exits.
+  for (;;) sem_wait(&t->sem);
   return nullptr;
 }
 
@@ -1894,7 +1905,6 @@ static void run_c13(const js::Value& plan) {
   X.cur = 0;
   sem_post(&X.tasks[0]->sem);
   sem_wait(&X.main_sem);
-  for (auto* t : X.tasks) pthread_join(t->th, nullptr);
   X.active = false;
   // results: steps of all tasks, flattened with a task marker
   for (auto* t : X.tasks) {
